@@ -16,6 +16,7 @@ import (
 	"github.com/getlantern/bytemap"
 	"github.com/getlantern/zenodb/sql"
 
+	"verif/internal/cluster"
 	"verif/internal/dbh"
 	"verif/internal/fw"
 	"verif/internal/gen"
@@ -29,7 +30,8 @@ func init() {
 		Rule: "even cases: a batch of SQL strings = valid generated queries put through mutators (token delete/duplicate/swap, keyword substitution, other statement kinds DELETE/INSERT/UPDATE/UNION/SHOW/SET, arity and argument-type changes, " +
 			"unknown tables/fields/functions, truncation, byte noise), each passed to sql.Parse, sql.TableFor and DB.Query (parse+plan with a real table provider) under recover(); any panic is a violation. " +
 			"odd cases: hostile insert payloads (nil/nested/empty-array/NaN/Inf/huge-string/empty-key/odd numeric types via DB.Insert, random/truncated/bit-flipped byte maps via DB.InsertRaw) interleaved with valid unique-id points " +
-			"on tables with and without WHEREs using dimension functions; afterwards every valid id must be present exactly once (a stalled ingest goroutine shows as ids that never arrive). " +
+			"on tables with and without WHEREs using dimension functions; afterwards every valid id must be present exactly once (a stalled ingest goroutine shows as ids that never arrive); " +
+			"every second odd case throws the same payloads at the leader of a real in-process cluster (2-3 partitions): barrier points must still arrive and every valid id must sit exactly once on the follower of its partition (a wedged follow pipeline shows as ids that are never replicated). " +
 			"non-trivial = the parser accepted >=1 mutated string / >=1 hostile payload reached a table; distinct by batch hash",
 		Assumptions: []string{"executing a plan is not judged here", "a payload may be rejected or skipped; only crashes, hangs and loss of later valid points count"},
 		Cases: func(tier string) int {
@@ -42,15 +44,19 @@ func init() {
 		Workers:          8,
 		PanicIsViolation: true,
 		BatchTimeout:     15 * time.Minute,
+		Env:              []string{"VERIF_TIMER_DIV=10"},
 		Run:              runC16,
 	})
 }
 
 func runC16(c *fw.Ctx) {
-	if c.Case%2 == 0 {
+	switch {
+	case c.Case%2 == 0:
 		c16SQL(c)
-	} else {
+	case c.Case%4 == 1:
 		c16Inserts(c)
+	default:
+		c16Replicated(c)
 	}
 }
 
@@ -383,23 +389,16 @@ func c16HostileDims(r *rand.Rand) map[string]interface{} {
 	return d
 }
 
-func c16Inserts(c *fw.Ctx) {
+// c16Sink is what hostile payloads are thrown at: an embedded database or a cluster leader.
+type c16Sink interface {
+	Insert(stream string, ts time.Time, dims map[string]interface{}, vals map[string]interface{}) error
+	InsertRaw(stream string, ts time.Time, dims bytemap.ByteMap, vals bytemap.ByteMap) error
+}
+
+// c16HostileStream sends nPay hostile payloads to db, each followed by 1-2 valid unique-id points
+// (k = id%05d, x = "q", v = 1, one second apart from base). Returns the number of valid ids.
+func c16HostileStream(c *fw.Ctx, db c16Sink, base time.Time, nPay int) (id int, hostileDone int, lastPayload string, ok bool) {
 	r := c.Rand
-	defs := []dbh.TableDef{
-		{Name: "t_all", SQL: "SELECT SUM(v) AS v FROM inbound GROUP BY k, period(1h)", Retention: 100 * time.Hour, Stream: "inbound"},
-		{Name: "t_where", SQL: "SELECT SUM(v) AS v FROM inbound WHERE LEN(k) > 2 AND x <> 'zz' AND CONCAT('-', k, x) <> 'a-b' GROUP BY k, period(1h)", Retention: 100 * time.Hour, Stream: "inbound"},
-		{Name: "t_star", SQL: "SELECT v, AVG(v) AS a, IF(x = 'q', SUM(v)) AS i FROM inbound WHERE SUBSTR(k, 0, 2) = 'id' GROUP BY *, period(1h)", Retention: 100 * time.Hour, Stream: "inbound", MaxFlush: 5 * time.Millisecond},
-	}
-	db, err := dbh.Open(c.Dir, defs, dbh.Opts{VirtualTime: true})
-	if err != nil {
-		c.Violate("open", "cannot open database: %v", err)
-		return
-	}
-	defer db.Close()
-	base := gen.Base
-	nPay := c.Pick(150, 500)
-	id := 0
-	hostileDone := 0
 	insertValid := func() bool {
 		err := db.Insert("inbound", base.Add(time.Duration(id)*time.Second), map[string]interface{}{"k": fmt.Sprintf("id%05d", id), "x": "q"}, map[string]interface{}{"v": 1.0})
 		if err != nil {
@@ -409,7 +408,6 @@ func c16Inserts(c *fw.Ctx) {
 		id++
 		return true
 	}
-	var lastPayload string
 	for p := 0; p < nPay; p++ {
 		// hostile payload, logged before it is sent
 		kind := r.Intn(5)
@@ -462,13 +460,33 @@ func c16Inserts(c *fw.Ctx) {
 		}
 		hostileDone++
 		if c.Violated() {
-			return
+			return id, hostileDone, lastPayload, false
 		}
 		for k := 0; k < 1+r.Intn(2); k++ {
 			if !insertValid() {
-				return
+				return id, hostileDone, lastPayload, false
 			}
 		}
+	}
+	return id, hostileDone, lastPayload, true
+}
+
+func c16Inserts(c *fw.Ctx) {
+	defs := []dbh.TableDef{
+		{Name: "t_all", SQL: "SELECT SUM(v) AS v FROM inbound GROUP BY k, period(1h)", Retention: 100 * time.Hour, Stream: "inbound"},
+		{Name: "t_where", SQL: "SELECT SUM(v) AS v FROM inbound WHERE LEN(k) > 2 AND x <> 'zz' AND CONCAT('-', k, x) <> 'a-b' GROUP BY k, period(1h)", Retention: 100 * time.Hour, Stream: "inbound"},
+		{Name: "t_star", SQL: "SELECT v, AVG(v) AS a, IF(x = 'q', SUM(v)) AS i FROM inbound WHERE SUBSTR(k, 0, 2) = 'id' GROUP BY *, period(1h)", Retention: 100 * time.Hour, Stream: "inbound", MaxFlush: 5 * time.Millisecond},
+	}
+	db, err := dbh.Open(c.Dir, defs, dbh.Opts{VirtualTime: true})
+	if err != nil {
+		c.Violate("open", "cannot open database: %v", err)
+		return
+	}
+	defer db.Close()
+	base := gen.Base
+	id, hostileDone, lastPayload, ok := c16HostileStream(c, db.DB, base, c.Pick(150, 500))
+	if !ok {
+		return
 	}
 	c.Obs("hostile_payloads", int64(hostileDone))
 	c.Obs("valid_points", int64(id))
@@ -503,13 +521,147 @@ func c16Inserts(c *fw.Ctx) {
 	c.Sample(map[string]interface{}{"kind": "inserts", "hostile_payloads": hostileDone, "valid_points": id, "last_payload": lastPayload})
 }
 
-func c16Raw(c *fw.Ctx, db *dbh.DB, ts time.Time, d, v []byte, desc string) {
+func c16Raw(c *fw.Ctx, db c16Sink, ts time.Time, d, v []byte, desc string) {
 	defer func() {
 		if pv := recover(); pv != nil {
 			c.ViolateData("c16-insertraw-panic:"+c16PanicSite(string(debug.Stack())), map[string]interface{}{"payload": desc, "stack": string(debug.Stack())}, "DB.InsertRaw panicked on %s: %v", desc, pv)
 		}
 	}()
 	db.InsertRaw("inbound", ts, bytemap.ByteMap(d), bytemap.ByteMap(v))
+}
+
+// c16Replicated: the same hostile payloads thrown at the leader of a real cluster (in-process server nodes, gRPC/TLS
+// on loopback, 2-3 partitions, tables with WHEREs using dimension functions); afterwards barrier points per
+// (partition, table) must arrive and every valid id must sit exactly once on the follower of its partition: a
+// payload that kills or wedges the leader's follow pipeline or a follower's apply loop shows as ids that never arrive.
+func c16Replicated(c *fw.Ctx) {
+	r := c.Rand
+	N := 2 + r.Intn(2)
+	type tdef struct {
+		name, sql string
+		partBy    []string
+	}
+	tables := []tdef{
+		{"t_all", "SELECT SUM(v) AS v FROM inbound GROUP BY k, period(1h)", []string{"k"}},
+		{"t_where", "SELECT SUM(v) AS v FROM inbound WHERE LEN(k) > 2 AND x <> 'zz' AND CONCAT('-', k, x) <> 'a-b' GROUP BY k, period(1h)", []string{"k"}},
+		{"t_star", "SELECT v, AVG(v) AS a, IF(x = 'q', SUM(v)) AS i FROM inbound WHERE SUBSTR(k, 0, 2) = 'id' OR SUBSTR(k, 0, 2) = 'zz' GROUP BY *, period(1h)", nil},
+	}
+	var cdefs []cluster.TableDef
+	for _, t := range tables {
+		cdefs = append(cdefs, cluster.TableDef{Name: t.name, SQL: t.sql, Retention: 100 * time.Hour, MaxFlush: time.Duration(20+r.Intn(200)) * time.Millisecond, PartitionBy: t.partBy})
+	}
+	cl, err := cluster.New(cluster.Config{Dir: c.Dir + "/cluster", Tables: cdefs, NumLeaders: 1, NumPartitions: N, Redundancy: 1, QueryTimeout: 60 * time.Second})
+	if err != nil {
+		c.Inconclusive("cluster: %v", err)
+		return
+	}
+	defer cl.StopAll()
+	if err := cl.StartAll(); err != nil {
+		c.Inconclusive("cluster start: %v", err)
+		return
+	}
+	base := time.Now().Add(-3 * time.Hour).Truncate(time.Hour)
+	leader := cl.Leaders[0].DB
+	id, hostileDone, lastPayload, ok := c16HostileStream(c, leader, base, c.Pick(120, 400))
+	if !ok {
+		return
+	}
+	c.Obs("hostile_payloads_through_leader", int64(hostileDone))
+	c.Obs("valid_points_through_leader", int64(id))
+	c.HashAdd("replicated", N, hostileDone, id, lastPayload)
+	// barrier: one point per (partition, table), inserted after everything else
+	want := map[*cluster.Node]map[string]string{}
+	covered := map[string]bool{}
+	for j := 0; j < 400 && len(covered) < N*len(tables); j++ {
+		dims := map[string]interface{}{"k": fmt.Sprintf("zzbar%04d", j), "x": "q"}
+		useful := false
+		for _, t := range tables {
+			if !covered[fmt.Sprintf("%d/%s", cluster.PartitionFor(dims, t.partBy, N), t.name)] {
+				useful = true
+			}
+		}
+		if !useful {
+			continue
+		}
+		if err := leader.Insert("inbound", base.Add(30*time.Minute), dims, map[string]interface{}{"v": 1.0}); err != nil {
+			c.Violate("c16-valid-insert-rejected", "barrier point rejected after %d hostile payloads: %v", hostileDone, err)
+			return
+		}
+		for _, t := range tables {
+			p := cluster.PartitionFor(dims, t.partBy, N)
+			if key := fmt.Sprintf("%d/%s", p, t.name); !covered[key] {
+				covered[key] = true
+				f := cl.Followers[p][0]
+				if want[f] == nil {
+					want[f] = map[string]string{}
+				}
+				want[f][t.name] = dims["k"].(string)
+			}
+		}
+	}
+	deadline := time.Now().Add(120 * time.Second)
+	for {
+		missing := ""
+		for f, per := range want {
+			for tbl, k := range per {
+				res := f.Query(ctxBackground(), "SELECT _points FROM "+tbl+" GROUP BY k", true)
+				seen := false
+				for i := range res.Rows {
+					if res.Rows[i].Dims["k"] == k {
+						seen = true
+					}
+				}
+				if !seen {
+					missing = fmt.Sprintf("follower of partition %d, table %s lacks the barrier point %s", f.Partition, tbl, k)
+				}
+			}
+		}
+		if missing == "" {
+			break
+		}
+		if time.Now().After(deadline) {
+			if c10Drained(10 * time.Second) {
+				c.ViolateData("c16-replication-stalled", lastPayload, "after %d hostile payloads through the leader, with nothing in flight for 10s, %s: valid points inserted afterwards are not replicated", hostileDone, missing)
+			} else {
+				c.Inconclusive("no convergence within 120s: %s", missing)
+			}
+			return
+		}
+		time.Sleep(100 * time.Millisecond)
+	}
+	for p := 0; p < N; p++ {
+		f := cl.Followers[p][0]
+		for _, t := range tables {
+			res := f.Query(ctxBackground(), "SELECT _points, v FROM "+t.name+" GROUP BY k", true)
+			if res.Failed() {
+				c.Violate("c16-query-error", "query on follower %d table %s failed after the hostile payloads: %s", p, t.name, res.ErrString())
+				return
+			}
+			got := map[string][]float64{}
+			for i := range res.Rows {
+				if k, ok := res.Rows[i].Dims["k"].(string); ok {
+					got[k] = res.Rows[i].Vals
+				}
+			}
+			for i := 0; i < id; i++ {
+				k := fmt.Sprintf("id%05d", i)
+				dims := map[string]interface{}{"k": k, "x": "q"}
+				mine := cluster.PartitionFor(dims, t.partBy, N) == p
+				v := got[k]
+				if mine && (v == nil || v[0] != 1 || v[1] != 1) {
+					c.ViolateData("c16-valid-point-not-replicated", map[string]interface{}{"table": t.name, "id": k, "row": v}, "follower of partition %d, table %s: valid point %s (inserted through the leader after hostile payloads) has row %v, expected _points=1 v=1", p, t.name, k, v)
+					return
+				}
+				if !mine && v != nil {
+					c.Violate("c16-valid-point-misrouted", "follower of partition %d, table %s holds %s, which belongs to partition %d", p, t.name, k, cluster.PartitionFor(dims, t.partBy, N))
+					return
+				}
+			}
+			c.Obs("replicated_tables_verified", 1)
+		}
+	}
+	c.Nontrivial(hostileDone > 0)
+	c.Sample(map[string]interface{}{"kind": "replicated-inserts", "partitions": N, "hostile_payloads": hostileDone, "valid_points": id, "last_payload": lastPayload})
 }
 
 // c16WaitOrStall waits for quiescence; a table that stays behind with no progress at all for 10s is
